@@ -215,7 +215,7 @@ def r2_r3(prog, rep):
         upd = list(ge.calls("update"))
         hm = list(ge.calls("HMAC_SHA256_Buf"))
         # the final Update comes after the loop (not inside it)
-        ok = ok and loop and len(upd) == 1 and upd[0].block.id not in ge.reach_from(upd[0].block.id) and hm[0].block.id in ge.reach_from(hm[0].block.id)
+        ok = ok and loop and len(upd) == 1 and upd[0].block.id not in ge.reach_from(upd[0].block.id) and len(hm) == 1 and hm[0].block.id in ge.reach_from(hm[0].block.id)
     rep.check(ok, "R3-template", "generate: loop over bufpos < buflen, last block truncated, state update after the loop", ge.loc, "", function="generate", construct="generate-shape")
     # reseed schedule: counter starts at 1, +1 per generate, reseed when > 256  => exactly 256 generates per seed
     ce = u.func("crypto_entropy_read")
